@@ -296,8 +296,9 @@ def run(ctx):
         monitor_pair(ctx, spec, r_on, r_off)
     u.samples = [dunit.spec_brief(s) for s, _ in results[:2]]
     dunit.eval_d_unit(u, results)
-    p_unit(ctx)
-    real_processes(ctx, 2 if ctx.quick else 12)
+    import common as _common
+    _common.guarded(ctx, "P-unit", p_unit, ctx)
+    _common.guarded(ctx, "real processes", real_processes, ctx, 2 if ctx.quick else 12)
 
 
 def replay(ctx, data):
